@@ -17,9 +17,13 @@ CFG = dict(
               "derivations_commute_partial", "appendInPlace_breaks", "store_sites_fresh",
               "op_refines", "append_refines", "attrLen_forced", "run_bounded", "derivations_commute",
               "derivations_commute_reachable",
-              "classification_from_source", "classification_covers", "classification_no_unknown"],
+              "classification_from_source", "classification_covers", "classification_no_unknown",
+              "aliasing_summaries_rejected", "class_realises"],
     helper_theorems=["step_valid", "run_valid", "empty_valid", "appliesInOrder_spec", "store_sites_cover",
-                     "step_bounded", "empty_bounded", "pureOp_mono"],
+                     "step_bounded", "empty_bounded", "pureOp_mono",
+                     "realises_sharedExcept", "realises_self", "real_newMesh", "real_setIndices", "real_setMaterials",
+                     "real_toPointCloud", "real_clearAttrs", "real_setData", "real_setAttr", "real_copyAttr", "real_rebuild",
+                     "real_readOnly", "real_append"],
     streams=[dict(name="c01", n=dict(quick=300, thorough=6000))],
     trusted=T_COMMON + [
         "engine F extractor /verif/go/facts/c01.go (syntactic, intra-procedural provenance of store targets; conservative by construction; "
